@@ -103,7 +103,7 @@ inline bool isAdjacentTo(const Rational& r, const double& d)
 
    // the rational value is representable in double precision
    if(tmp == r)
-      return true;
+      return x == d;
    // the rounded value is smaller than the rational value
    else if(tmp < r)
    {
